@@ -163,6 +163,7 @@ func runC10(c *Ctx) {
 	c.rule("R-SIZE-PAIR", 2, "size+1 ↔ one-element back.Add, size-1 ↔ cur.Remove on the not-at-end path, size=0 ↔ list.Clear")
 	c.rule("R-RING-MIRROR", 4, "every store A.next = B has in the same block a store B.prev = A and vice versa")
 	c.rule("R-YIELD", 4, "Stack.Each, List.Each, Queue.Each, ring.scan/Each stop after f returned false")
+	ruleNoopGuard(c, "ring")
 
 	m := &mlinkModel{P: P, eff: newEff(P), validates: map[*ssa.Function]bool{}, storesPred: map[*ssa.Function]bool{}}
 	m.cursorT = P.Named("mlink", "Cursor")
@@ -807,4 +808,104 @@ func paramAlwaysFresh(p *ssa.Parameter) bool {
 	res := ok && sites > 0
 	paramFreshMemo[p] = res
 	return res
+}
+
+// ruleNoopGuard (an inconsistent-belief rule): a shortcut that leaves a
+// link-editing function without writing anything, taken because a link already
+// has some value (`if r.next == s { return nil }`, `if r.prev == r { return r }`),
+// is justified only when the function would otherwise store exactly that value
+// into exactly that link: the skipped write would change nothing.  A shortcut
+// on any other equality skips writes that matter.
+func ruleNoopGuard(c *Ctx, pkg string) {
+	c.rule("R-NOOP-GUARD", 2, "a no-op exit taken on `x.f == v` skips a function that stores v into x.f: the equality tested is the one the skipped write would establish")
+	for _, fn := range c.P.PkgFuncs(pkg) {
+		if fn.Parent() != nil {
+			continue
+		}
+		// only functions that edit links
+		type st struct {
+			base ssa.Value
+			f    *types.Var
+			val  ssa.Value
+		}
+		var stores []st
+		allInstrs(fn, func(in ssa.Instruction) {
+			if s, ok := in.(*ssa.Store); ok {
+				if fa, ok := s.Addr.(*ssa.FieldAddr); ok {
+					if _, isPtr := s.Val.Type().Underlying().(*types.Pointer); isPtr {
+						_, f := fieldVarOf(fa)
+						stores = append(stores, st{fa.X, f, s.Val})
+					}
+				}
+			}
+		})
+		if len(stores) == 0 {
+			continue
+		}
+		quiet := func(b *ssa.BasicBlock) bool {
+			// a block that returns without writing or calling anything
+			if _, ok := b.Instrs[len(b.Instrs)-1].(*ssa.Return); !ok {
+				return false
+			}
+			for _, in := range b.Instrs {
+				switch in.(type) {
+				case *ssa.Store, *ssa.Call:
+					return false
+				}
+			}
+			return true
+		}
+		name := fnName(fn)
+		n := 0
+		for _, b := range fn.Blocks {
+			iff, ok := b.Instrs[len(b.Instrs)-1].(*ssa.If)
+			if !ok {
+				continue
+			}
+			bo, ok := iff.Cond.(*ssa.BinOp)
+			if !ok {
+				continue
+			}
+			var exit *ssa.BasicBlock
+			switch bo.Op {
+			case token.EQL:
+				exit = b.Succs[0]
+			case token.NEQ:
+				exit = b.Succs[1]
+			default:
+				continue
+			}
+			if !quiet(exit) || len(exit.Preds) == 0 {
+				continue
+			}
+			// is this edge a shortcut (some other path to the same return does write)?  the return block of
+			// Pop is also reached after the edits; the edge from the test skips them
+			x, y := bo.X, bo.Y
+			base, f := loadedField(x)
+			if f == nil {
+				base, f = loadedField(y)
+				x, y = y, x
+			}
+			if f == nil {
+				continue // r == s, r == nil: not a statement about a link
+			}
+			if _, isPtr := f.Type().Underlying().(*types.Pointer); !isPtr {
+				continue
+			}
+			if isNilConst(y) {
+				continue
+			}
+			n++
+			c.sawFn(name)
+			key := fmt.Sprintf("%s:no-op exit on .%s #%d", name, f.Name(), n)
+			justified := false
+			for _, s := range stores {
+				if sameField(s.f, f) && sym(s.base) == sym(base) && (s.val == y || sym(s.val) == sym(y)) {
+					justified = true
+				}
+			}
+			c.judge(justified, "R-NOOP-GUARD", key, bo.Pos(), "the function stores that value into that link otherwise",
+				fmt.Sprintf("the function returns without editing when %s.%s == %s, but it never stores %s into %s.%s: the equality tested is not the one its writes would establish, so cases that need the edit (or cases that do not) are misjudged", ksym(base), f.Name(), ksym(y), ksym(y), ksym(base), f.Name()))
+		}
+	}
 }
